@@ -82,6 +82,7 @@ class Stream:
                 flow_class = self.default_delimited_flow_class
 
             if self.options.logical_type in (
+                jelly.LOGICAL_STREAM_TYPE_UNSPECIFIED,
                 jelly.LOGICAL_STREAM_TYPE_FLAT_TRIPLES,
                 jelly.LOGICAL_STREAM_TYPE_FLAT_QUADS,
             ):
